@@ -54,3 +54,4 @@ let totality (fs : string list) : string =
 
 let () = register "totality" totality
 let () = register "totality-scale" (fun _ -> "-")
+let () = register "totality-stack" (fun _ -> "-")
